@@ -1,11 +1,15 @@
 CFG = {
-    "jobs": lambda tier: [J("scaled", "c12", imports="Base Stream Inst Run RunHistStack"), J("prod", "c12-cli", needs_repo_bins=["mlar"])],
-    "run_modules": ["RunHistStack"],
+    "jobs": lambda tier: [J("scaled", "c12", imports="Base Stream Inst Run RunHistStack"), J("prod", "c12-cli", needs_repo_bins=["mlar"]),
+                           # work package extract: the FileWriter pool, model-compared at the capacity of the source
+                           J("prod", "c16-pool", needs_repo_bins=["mlar"], imports="Base Stream Inst Run RunC16Pool", shard=1)],
+    "run_modules": ["RunHistStack", "RunC16Pool"],
     "rule": "scaled constants: generated archives (as C01) read fully, then linear extraction into the subsets {empty, each singleton, all in "
             "reverse order, one random subset}; plus layer-less archives whose data part is cut at every 5th (quick) / every (thorough) position "
             "before and after the end-of-data marker with the footer kept (so that the archive still opens); non-trivial = content present or a cut; "
             "distinct = distinct (plan, subsets) or (archive, cut); plus, through the mlar binary, whole-archive extraction of archives of "
-            "3 / 1001 / 1300 (thorough: also 999, 1000, 1500, 2500) files written interleaved in 2-3 rounds (more files than the extractor keeps open)",
+            "3 / 1001 / 1300 (thorough: also 999, 1000, 1500, 2500) files written interleaved in 2-3 rounds (more files than the extractor keeps open); "
+            "c16-pool: 5 / 1001 / 1100 tiny members in interleaved rounds (every handle of the 1000-entry pool evicted and re-opened), every "
+            "extracted file compared with the model run through the pool (Pool.extract_linear_pool at capacity 1000)",
     "exhaustive": {"quick": False, "thorough": False},
     "explanation": "theorems: Ok implies the block walk reached an EndOfArchiveData tag (any stream, any bytes) [C12_ok_needs_marker]; data is "
                    "delivered to chosen names only [C12_only_chosen]; on every archive the writer model produces (any successful call list + "
